@@ -197,6 +197,8 @@ func NewSim(exec func(api uint8, input string) (string, string)) *Sim {
 
 const inf = int64(math.MaxInt64 / 4)
 
+var runStartCell uint64
+
 func cloneString(s string) string {
 	b := make([]byte, len(s))
 	copy(b, s)
@@ -218,6 +220,11 @@ func taskMain(t *Task) {
 	raceDisable()
 	rep := <-t.resume
 	raceEnable()
+	// whatever the scheduler goroutine did before this run started (including
+	// the harness's own reads of library globals) happens-before this task: for
+	// tasks spawned by the scheduler the go statement already says so, for
+	// goroutines the library started in package init this acquire does
+	RaceAcquire(unsafe.Pointer(&runStartCell))
 	setBudget(t, rep.budget)
 	t.body(t)
 	// final hand-off with sync ENABLED: the scheduler acquires everything this
@@ -288,6 +295,7 @@ func (s *Sim) Run(spec *RunSpec) *RunResult {
 			}
 		})
 	}
+	RaceReleaseMerge(unsafe.Pointer(&runStartCell))
 	ncallers := len(s.tasks)
 	// adopt background goroutines of the library (their goroutines already exist, parked)
 	adopt := func(t *Task) {
@@ -371,6 +379,11 @@ func (s *Sim) Run(spec *RunSpec) *RunResult {
 		}
 	}
 	s.res.Leaked = len(s.bg)
+	for _, t := range s.bg {
+		// everything a carried-over library goroutine did so far happens-before
+		// whatever this process does next (globals probe, later runs)
+		RaceAcquire(unsafe.Pointer(&t.syncCell))
+	}
 	setCur(nil)
 	s.res.Steps = s.runSteps()
 	s.res.RaceDelta = RaceErrors() - races0
